@@ -8,6 +8,9 @@ def e2_run(prop, kernels, tier, seed, cfgs=("sse2", "scalar"), cap=None):
     import run as e2run
     cap = cap or (60 if tier == "quick" else 600)
     out = []
+    if os.environ.get("VERIF_E2_ONLY"):      # development aid: restrict to kernels whose name matches
+        import re
+        kernels = [k for k in kernels if re.search(os.environ["VERIF_E2_ONLY"], k.name)]
     for cfg in cfgs:
         try:
             rs = e2run.run(prop.lower(), cfg, kernels, seed=seed, cap=cap)
